@@ -910,6 +910,26 @@ pub fn inputs_c16(r: &mut Rng, n: usize, _tier: &str, out: &mut dyn Write) {
         writeln!(out, "wd_from_u8 {}", i).unwrap();
         writeln!(out, "wd_from_i8 {}", i as i32 - 128).unwrap();
     }
+    // negation block: epochs whose own count is exactly -/+ k/2 days (k = 1..13), so that stepping k days forward (back)
+    // lands on the exact NEGATION of the count -- `Duration ==` holds between d and -d within a century of zero; every
+    // weekday, every scale, each stepping function
+    {
+        const ALL9: [&str; 9] = ["TAI", "TT", "UTC", "GPST", "GST", "BDT", "QZSST", "ET", "TDB"];
+        let mut c = 0usize;
+        for ts in ALL9 {
+            for k in 1..=13i128 {
+                for sgn in [-1i128, 1] {
+                    for w in 0..7 {
+                        let es = format!("{}:{}", dstr(sgn * k * DAY / 2), ts);
+                        let op = ["next", "prev", "next_midnight", "prev_midnight", "next_noon", "prev_noon"][c % 6];
+                        c += 1;
+                        writeln!(out, "{} {} {}", if sgn < 0 { "next" } else { "prev" }, es, w).unwrap();
+                        writeln!(out, "{} {} {}", op, es, w).unwrap();
+                    }
+                }
+            }
+        }
+    }
     for _ in 0..n {
         let ts = *r.pick(&NONDYN);
         // day edges: first and last nanoseconds of a day, in TAI or UTC count
